@@ -810,6 +810,6 @@ int main(int argc, char **argv)
     if (!mc_arg("only", NULL)) { mc_e2_level(CLS "_comparison_table", NCW, (uint64_t) NCW * NCW, cw_case, cw_desc, NULL); mc_e2_level(CLS "_number_texts", NNT, (uint64_t) NNT, nt_case, nt_desc, NULL); }
     if (!mc_arg("only", NULL)) mc_e2_level(CLS "_long_text", 65537, (uint64_t) NLT * NLO, lt_case, lt_desc, NULL);
     if (!mc_arg("only", NULL)) { mc_e2_level(CLS "_stream_history", 1, 30, sh_case, sh_desc, NULL); mc_e2_level(CLS "_fd_hard_error", 1, NHE, he_case, he_desc, NULL); }
-    if (!mc_arg("only", NULL)) { int maxn = (int) mc_arg_int("spmax", mc_thorough() ? 9000 : 700); mc_e2_level(CLS "_sprintf_len", maxn, (uint64_t) (maxn + 1) * 3, sp_case, sp_desc, NULL); }
+    if (!mc_arg("only", NULL)) { int maxn = (int) mc_arg_int("spmax", mc_thorough() ? 9000 : 4200); mc_e2_level(CLS "_sprintf_len", maxn, (uint64_t) (maxn + 1) * 3, sp_case, sp_desc, NULL); }
     return mc_finish();
 }
